@@ -19,7 +19,10 @@ def hour_pillar(day_pillar_idx, hour):
 
 
 def run(ctx):
+    ctx.exhaustive = False
+    ctx.exhaustive_note = '60x24 tables complete; the inverse search is evaluated on 258 sampled (instant, range) pairs'
     from rules import shared
+    ctx.include('effect_inventory', shared.effect_inventory)   # no new process-wide mutable state (MIR statics inventory)
     ctx.include('month_records', shared.month_records)   # leap table, solstice anchor, month memo, memo cells (shared, cached per source hash)
     I = ctx.interp(fuel=60000000)
     t = T(I)
